@@ -221,6 +221,20 @@ class Env(object):
             raise HarnessError('provider lost attributes %r: canonical state would be wrong' % (missing,))
         self.extra_attrs = sorted(got - EXPECTED_PROVIDER_ATTRS)
         self.prov.__dict__['_vp'] = self
+        # the loop-exited event is what kill() waits for: remember what the transport looked like when it was set
+        self.exit_sock = None
+        inner, env = self.prov._is_killed, self
+
+        class _ExitEvent(object):
+            def set(self_):
+                if env.exit_sock is None:
+                    env.exit_sock = env.sock_state(env.prov)
+                inner.set()
+
+            def __getattr__(self_, name):
+                return getattr(inner, name)
+        if hasattr(inner, 'set'):
+            self.prov._is_killed = _ExitEvent()
 
     # ---- environment callbacks
     def new_socket(self):
@@ -275,6 +289,9 @@ class Env(object):
             if self.deviations.get(self.nonquiescent_heads) and self.pos < len(self.history) and \
                     (self.dev_guard is None or self.dev_guard(self.pos)):
                 self._inject(p, deviation=True)
+                if p.__dict__.get('_vp_flag'):
+                    self.cur['log'].append('killed-flag-seen')
+                    return True
             return False
         # quiescent: close the current step and inject the next event; every step runs at least one loop
         # iteration (an idle poll must not block: in real life select() guards recv())
@@ -395,7 +412,8 @@ class Env(object):
         self.final = {'status': self.status, 'exc': repr(self.exc) if self.exc else None,
                       'state': p.state_machine.current_state, 'sock': self.sock_state(p),
                       'timer': p.timer._start_time is not None, 'raw_pdu': bytes(p.raw_pdu),
-                      'thread_flag': p._is_killed.is_set(), 'consumed': self.pos, 'iterations': self.iterations}
+                      'thread_flag': p._is_killed.is_set(), 'consumed': self.pos, 'iterations': self.iterations,
+                      'exit_sock': self.exit_sock}
         p.__dict__.pop('_vp', None)
         return self
 
